@@ -1,6 +1,6 @@
 (* Properties_C05.v — C05: output and checkpoints do not depend on worker timing.
    The SDL model's next() takes the arrival SCHEDULE as an argument; the theorems quantify over it. Proofs: SdlMapProofs.v. *)
-From PD Require Import Base SdlModel SdlObs SdlMapProofs SdlIterScope SdlIterSmall SdlIterSmall2.
+From PD Require Import Base SdlModel SdlObs SdlMapProofs SdlIterScope SdlIterSmall SdlIterSmall2 SdlIterProofs.
 Open Scope list_scope. Open Scope nat_scope.
 
 (* map-style: any two arrival schedules give the same epoch *)
@@ -24,10 +24,22 @@ Proof.
 Qed.
 Print Assumptions C05_map_checkpoint_schedule_independent.
 
-(* iterable datasets: target statement (checked by adversarial-schedule correspondence on every run) *)
+(* iterable datasets: the output statement (PROVED below; also checked by adversarial-schedule correspondence on every run) *)
 Definition C05_iter_statement : Prop :=
   forall c, c_kind c = KIter -> 0 < c_W c -> 0 < c_P c -> length (c_shards c) = c_W c -> c_bad c = [] ->
   forall sched sched', outcomes c (S (length (reference c))) (sdl_fresh c) sched = outcomes c (S (length (reference c))) (sdl_fresh c) sched'.
+
+(* iterable datasets, PROVED for every configuration and ANY two arrival schedules: the epoch does not depend on worker timing
+   (retirement of an exhausted worker happens when its notice ARRIVES, at a schedule-dependent moment, and still the stream is
+   the same) — corollary of C03_iter_epoch_exact (SdlIterProofs.v) *)
+Theorem C05_iter_schedule_independent : forall c, c_kind c = KIter -> 0 < c_W c -> 0 < c_P c ->
+  forall sched sched', outcomes c (S (length (reference c))) (sdl_fresh c) sched = outcomes c (S (length (reference c))) (sdl_fresh c) sched'.
+Proof. intros c Hk HW HP s1 s2. rewrite (iter_epoch_exact c Hk HW HP s1), (iter_epoch_exact c Hk HW HP s2). reflexivity. Qed.
+Print Assumptions C05_iter_schedule_independent.
+
+Corollary C05_iter_statement_holds : C05_iter_statement.
+Proof. intros c Hk HW HP _ _ s1 s2. exact (C05_iter_schedule_independent c Hk HW HP s1 s2). Qed.
+Print Assumptions C05_iter_statement_holds.
 
 (* the iterable statement on a SMALL SCOPE (finite-domain theorems by computation in the kernel, SdlIterSmall.v / SdlIterSmall2.v;
    scopes as stated in Properties_C03.v / Properties_C01.v): any two arrival schedules give the same epoch, and the
